@@ -29,17 +29,37 @@ import (
 // sigLog remembers every violation signature a run produced, so that the
 // complete list (mc prints at most 25) ends up in the evidence.
 type sigLog struct {
-	mu sync.Mutex
-	n  map[string]int64
+	mu    sync.Mutex
+	n     map[string]int64
+	first map[string]any // first case recorded per signature
 }
 
-func newSigLog() *sigLog { return &sigLog{n: map[string]int64{}} }
+func newSigLog() *sigLog { return &sigLog{n: map[string]int64{}, first: map[string]any{}} }
 
 func (l *sigLog) violation(env *mc.Env, sig string, c any, detail string) {
 	l.mu.Lock()
 	l.n[sig]++
+	if _, ok := l.first[sig]; !ok {
+		l.first[sig] = c
+	}
 	l.mu.Unlock()
 	env.R.Violation(sig, c, detail)
+}
+
+// firstCases returns the first case of every signature, ordered by signature.
+func (l *sigLog) firstCases() []any {
+	l.mu.Lock()
+	defer l.mu.Unlock()
+	sigs := make([]string, 0, len(l.first))
+	for s := range l.first {
+		sigs = append(sigs, s)
+	}
+	sort.Strings(sigs)
+	out := make([]any, 0, len(sigs))
+	for _, s := range sigs {
+		out = append(out, l.first[s])
+	}
+	return out
 }
 
 func (l *sigLog) publish(env *mc.Env) {
@@ -293,6 +313,43 @@ func coreLattice(t *num.Type, n int) []*big.Int {
 		putPM(new(big.Int).Add(half, bigOne))
 		putPM(new(big.Int).Sub(half, bigOne))
 		putPM(pow10(t.Scale / 2))
+	}
+	return sortedSet(set)
+}
+
+// divisorLattice: divisors wider than one 64-bit word for the long-division stress of
+// multiplyDivide: 10^k and 10^k +- 1 for every k with 10^k >= 2^64 up to the number of digits
+// of max, and floor(sqrt(max*10^scale)) + {-2..2}; all positive (signs are covered elsewhere).
+func divisorLattice(t *num.Type) []*big.Int {
+	set := map[string]*big.Int{}
+	put := func(x *big.Int) {
+		if x.BitLen() > 64 && t.InRange(x) {
+			set[x.String()] = new(big.Int).Set(x)
+		}
+	}
+	for k := 19; k <= len(t.Max.String()); k++ {
+		p := pow10(k)
+		put(p)
+		put(new(big.Int).Add(p, bigOne))
+		put(new(big.Int).Sub(p, bigOne))
+	}
+	s := new(big.Int).Sqrt(new(big.Int).Mul(t.Max, pow10(t.Scale)))
+	for d := int64(-2); d <= 2; d++ {
+		put(new(big.Int).Add(s, big.NewInt(d)))
+	}
+	return sortedSet(set)
+}
+
+// powersOfTwo: 2^k and 2^k - 1 for every k >= 64 inside the range.
+func powersOfTwo(t *num.Type) []*big.Int {
+	set := map[string]*big.Int{}
+	for k := uint(64); k <= 128; k++ {
+		p := new(big.Int).Lsh(bigOne, k)
+		for _, x := range []*big.Int{p, new(big.Int).Sub(p, bigOne)} {
+			if t.InRange(x) {
+				set[x.String()] = x
+			}
+		}
 	}
 	return sortedSet(set)
 }
